@@ -21,6 +21,7 @@ type Engine struct {
 	pkg       *ssa.Package
 	intrCache sync.Map
 	extraNoop []string
+	redirect  map[string]string
 	params    map[string]int64
 
 	maxDepth      int
